@@ -491,6 +491,15 @@ def C14(rep, prog, tier):
             _run(rep, wrappers.solver_per_query, site, paths)
     finally:
         rep.only = None
+    # an expiry seen by an operator between two pieces of work ends the query flagged; it never makes the operator skip the
+    # rest and answer from what it has (c-inference: both families of the query's correction sets, or TimeoutError)
+    rep.only = {"C.query-edges"}
+    try:
+        cls = _class_of(table, ("c-inference", None))
+        if cls:
+            _run(rep, cinf.query_encoding, ex, cls)
+    finally:
+        rep.only = None
     # the operators that look at the deadline themselves (z3 back-ends): having seen it expired they may go on without a
     # solver timeout or raise, but an answer given in front of the layer recursion must still follow from the query alone
     rep.only = {"W.start", "LEX.start"}
